@@ -43,6 +43,8 @@ def run(ctx):
     ctx.do(rule_property_forward)
     from .hidden_state import rule_no_hidden_state
     ctx.do(rule_no_hidden_state, "C15.history-independence")
+    from .pitfalls import rule_loops_not_cut_short
+    ctx.do(rule_loops_not_cut_short, "C15.loops-complete")
 
 
 class AStr(object):
